@@ -1,305 +1,6 @@
-import LyModel.Text.XmlText
-import LyModel.Generated.YinArgs
-import LyModel.Generated.Consts
-/-!
-# The XML pull lexer as YIN documents use it (`xml.c`)
-
-`lyxml_ctx_new`, `lyxml_ctx_next` with `lyxml_next_element`, `lyxml_open_element`, `lyxml_close_element`,
-`lyxml_next_attribute`, `lyxml_next_attr_content`, `lyxml_parse_qname`/`lyxml_parse_identifier`, `lyxml_ns_add`/`_rm`/`_get`,
-`lyxml_skip_until_end_or_after_otag` (comments and `<? … ?>` skipped, DOCTYPE refused).  Character data is
-`XmlText.parse` (`lyxml_parse_value`).  The input is a C string: the list holds the bytes before the NUL; the end of the
-list is the NUL.  Name-character classes and white space come from the generated ranges (`xml.h` macros evaluated by the
-extractor).  Core Lean only.
--/
+import LyModel.XmlLex.Model
+/-! The XML pull lexer (`lyxml_ctx_new` / `lyxml_ctx_next`) is the shared model `LyModel/XmlLex/Model.lean`; its names are re-exported
+    into the namespace of the YIN parser model. -/
 namespace LyModel.Yin
-open LyModel LyModel.Utf8 LyModel.Generated
-
-/-- `LY_ERR` values the layer returns: `LY_EVALID`, `LY_EINVAL` (element depth), `LY_EINT` (`LOGINT`) -/
-inductive YErr | invalid | einval | eint
-  deriving Repr, DecidableEq
-
-def YErr.name : YErr → String
-  | .invalid => "Valid" | .einval => "Inval" | .eint => "Int"
-
-inductive XStatus | element | elemClose | attribute | elemContent | attrContent | fin
-  deriving Repr, DecidableEq
-
-structure XNs where
-  pfx : Option Bytes
-  uri : Bytes
-  depth : Nat
-  deriving Repr, DecidableEq
-
-/-- `struct lyxml_ctx` -/
-structure XCtx where
-  /-- `in->current` -/
-  inp : Bytes
-  status : XStatus
-  /-- `elements`, innermost first -/
-  elems : List (Option Bytes × Bytes)
-  /-- `ns`, most recently added first -/
-  ns : List XNs
-  /-- `prefix` (`none` = NULL) and `name` of the current element / attribute -/
-  pfx : Option Bytes
-  name : Bytes
-  value : Bytes
-  wsOnly : Bool
-  deriving Repr, DecidableEq
-
-def inRanges (rs : List (Nat × Nat)) (c : Nat) : Bool := rs.any fun r => r.1 ≤ c && c ≤ r.2
-
-def isWs (b : UInt8) : Bool := inRanges xmlWsRanges b.toNat
-def isNameStart (c : Nat) : Bool := inRanges xmlNameStartRanges c
-def isNameChar (c : Nat) : Bool := inRanges xmlNameCharRanges c
-
-/-- `ign_xmlws` -/
-def ignWs : Bytes → Bytes
-  | [] => []
-  | b :: r => if isWs b then ignWs r else b :: r
-
-/-- `move_input(c, n)`: skip and fail at the end of input -/
-def moveInput (inp : Bytes) (n : Nat) : Except YErr Bytes :=
-  if (inp.drop n).isEmpty then .error .invalid else .ok (inp.drop n)
-
-/-- the `do … while (is_xmlqnamechar(c))` loop of `lyxml_parse_identifier`: the rest of the identifier and what follows.
-    The character after the identifier must decode (`ly_getutf8`), so an identifier at the end of input is an error. -/
-def identRest : (fuel : Nat) → Bytes → Except YErr (Bytes × Bytes)
-  | 0, _ => .error .invalid
-  | f + 1, inp =>
-    match getUtf8 inp with
-    | none => .error .invalid
-    | some (c, n) =>
-      if isNameChar c then (identRest f (inp.drop n)).map fun (a, r) => (inp.take n ++ a, r)
-      else .ok ([], inp)
-
-/-- `lyxml_parse_identifier` -/
-def parseIdent (inp : Bytes) : Except YErr (Bytes × Bytes) :=
-  match getUtf8 inp with
-  | none => .error .invalid
-  | some (c, n) =>
-    if !isNameStart c then .error .invalid
-    else (identRest (inp.length + 1) (inp.drop n)).map fun (a, r) => (inp.take n ++ a, r)
-
-/-- `lyxml_parse_qname`: prefix (`none` = NULL), name, rest -/
-def parseQName (inp : Bytes) : Except YErr (Option Bytes × Bytes × Bytes) :=
-  match parseIdent inp with
-  | .error e => .error e
-  | .ok (a, r) =>
-    if r.head? == some 58 then
-      match moveInput r 1 with
-      | .error e => .error e
-      | .ok r1 => (parseIdent r1).map fun (b, r2) => (some a, b, r2)
-    else .ok (none, a, r)
-
-/-- `lyxml_next_attr_content`: value, `ws_only`, rest after the closing quote -/
-def nextAttrContent (inp : Bytes) : Except YErr (Bytes × Bool × Bytes) :=
-  let i1 := ignWs inp
-  if i1.head? != some 61 then .error .invalid else
-  match moveInput i1 1 with
-  | .error e => .error e
-  | .ok i2 =>
-    let i3 := ignWs i2
-    match i3 with
-    | [] => .error .invalid
-    | q :: _ =>
-      if q != 39 && q != 34 then .error .invalid else
-      match moveInput i3 1 with
-      | .error e => .error e
-      | .ok i4 =>
-        match XmlText.parse q i4 with
-        | .error _ => .error .invalid
-        | .ok (v, ws, rest) => .ok (v, ws, rest.drop 1)
-
-def sXmlns : Bytes := [120, 109, 108, 110, 115]
-
-/-- is the attribute a namespace declaration?  (`xmlns:p` or `xmlns`) -/
-def isNsDecl (pfx : Option Bytes) (name : Bytes) : Bool :=
-  match pfx with
-  | some p => p == sXmlns
-  | none => name == sXmlns
-
-/-- `lyxml_ns_add`; `count` = `elements.count`.  `none` = "Duplicate XML NS prefix / default namespaces". -/
-def nsAdd (ns : List XNs) (count : Nat) (pfx : Option Bytes) (uri : Bytes) : Option (List XNs) :=
-  let rec go : List XNs → Option Bool       -- some true: exact duplicate, ignore; some false: add; none: error
-    | [] => some false
-    | n :: r =>
-      if n.depth < count then some false
-      else if n.pfx == pfx then (if n.uri == uri then some true else none)
-      else go r
-  match go ns with
-  | none => none
-  | some true => some ns
-  | some false => some ({ pfx := pfx, uri := uri, depth := count } :: ns)
-
-/-- `lyxml_ns_rm`; `count` = `elements.count` after the element was removed -/
-def nsRm (count : Nat) : List XNs → List XNs
-  | [] => []
-  | n :: r => if n.depth != count + 1 then n :: r else nsRm count r
-
-/-- `lyxml_ns_get(&xmlctx->ns, prefix, prefix_len)` -/
-def nsGet (ns : List XNs) (pfx : Option Bytes) : Option Bytes :=
-  (ns.find? fun n => n.pfx == pfx).map (·.uri)
-
-/-- `skip_section`: the input after the first occurrence of `delim` -/
-def skipSection (delim : Bytes) : Bytes → Except YErr Bytes
-  | [] => .error .invalid
-  | c :: cs =>
-    match XmlText.stripPrefix delim (c :: cs) with
-    | some r => .ok r
-    | none => skipSection delim cs
-
-/-- `lyxml_skip_until_end_or_after_otag`: the input at the end (`[]`) or just after the `<` of a tag -/
-def skipToTag (depth : Nat) : (fuel : Nat) → Bytes → Except YErr Bytes
-  | 0, _ => .error .invalid
-  | f + 1, inp =>
-    match ignWs inp with
-    | [] => if depth != 0 then .error .invalid else .ok []
-    | c :: cs =>
-      if c != 60 then .error .invalid else
-      match cs with
-      | [] => .error .invalid                 -- move_input: end of input after '<'
-      | 33 :: r =>                             -- "<!"
-        if r.isEmpty then .error .invalid else
-        match XmlText.stripPrefix [45, 45] r with
-        | some r1 =>
-          if r1.isEmpty then .error .invalid else
-          match skipSection [45, 45, 62] r1 with
-          | .error e => .error e
-          | .ok r2 => skipToTag depth f r2
-        | none => .error .invalid              -- DOCTYPE or an unknown section
-      | 63 :: r =>                             -- "<?"
-        match skipSection [63, 62] (63 :: r) with
-        | .error e => .error e
-        | .ok r2 => skipToTag depth f r2
-      | _ => .ok cs
-
-/-- `lyxml_next_element`: `none` = end of input; else (closing, prefix, name, rest) -/
-def nextElement (depth : Nat) (inp : Bytes) : Except YErr (Option (Bool × Option Bytes × Bytes × Bytes)) :=
-  match skipToTag depth (inp.length + 1) inp with
-  | .error e => .error e
-  | .ok [] => .ok none
-  | .ok (c :: cs) =>
-    let go (closing : Bool) (i : Bytes) : Except YErr (Option (Bool × Option Bytes × Bytes × Bytes)) :=
-      (parseQName (ignWs i)).map fun (p, n, r) => some (closing, p, n, r)
-    if c == 47 then
-      match moveInput (c :: cs) 1 with
-      | .error e => .error e
-      | .ok i => go true i
-    else go false (c :: cs)
-
-/-- the attribute loop of `lyxml_open_element`: namespaces are stored; returns the namespaces and the position after the
-    leading run of namespace declarations (`prev_input`) -/
-def openAttrs (count : Nat) : (fuel : Nat) → (isNs : Bool) → (prev : Bytes) → List XNs → Bytes → Except YErr (List XNs × Bytes)
-  | 0, _, _, _, _ => .error .invalid
-  | f + 1, isNs, prev, ns, inp =>
-    if inp.isEmpty then .ok (ns, prev) else
-    match getUtf8 inp with
-    | none => .error .invalid
-    | some (c, _) =>
-      if !isNameStart c then .ok (ns, prev) else
-      match parseQName inp with
-      | .error e => .error e
-      | .ok (p, n, r) =>
-        match nextAttrContent r with
-        | .error e => .error e
-        | .ok (v, _, r1) =>
-          let r2 := ignWs r1
-          if isNsDecl p n then
-            match nsAdd ns count (if p.isSome then some n else none) v with
-            | none => .error .invalid
-            | some ns' => openAttrs count f isNs (if isNs then r2 else prev) ns' r2
-          else openAttrs count f false prev ns r2
-
-/-- `lyxml_open_element` -/
-def openElement (cx : XCtx) (pfx : Option Bytes) (name : Bytes) (inp : Bytes) : Except YErr XCtx :=
-  let elems := (pfx, name) :: cx.elems
-  if elems.length > LY_MAX_BLOCK_DEPTH then .error .einval else
-  let i1 := ignWs inp
-  match openAttrs elems.length (i1.length + 1) true i1 cx.ns i1 with
-  | .error e => .error e
-  | .ok (ns, prev) =>
-    .ok { cx with inp := prev, status := .element, elems := elems, ns := ns, pfx := pfx, name := name }
-
-/-- `lyxml_close_element(…, empty)` -/
-def closeElement (cx : XCtx) (pfx : Option Bytes) (name : Bytes) (empty : Bool) (inp : Bytes) : Except YErr XCtx :=
-  match cx.elems with
-  | [] => .error .invalid
-  | e :: es =>
-    if e.1 != pfx || e.2 != name then .error .invalid else
-    let ns := nsRm es.length cx.ns
-    let i1 := ignWs inp
-    let i2 : Except YErr Bytes := if empty && i1.head? == some 47 then moveInput i1 1 else .ok i1
-    match i2 with
-    | .error e => .error e
-    | .ok i2 =>
-      if i2.head? != some 62 then .error .invalid
-      else .ok { cx with inp := i2.drop 1, status := .elemClose, elems := es, ns := ns, pfx := pfx, name := name }
-
-/-- `lyxml_next_attribute`: skips namespace declarations; stops in front of `>` / `/` (`none`) or after the name of a
-    standard attribute -/
-def nextAttribute : (fuel : Nat) → Bytes → Except YErr (Option (Option Bytes × Bytes) × Bytes)
-  | 0, _ => .error .invalid
-  | f + 1, inp =>
-    let i1 := ignWs inp
-    match i1 with
-    | [] => .error .invalid
-    | c :: _ =>
-      if c == 62 || c == 47 then .ok (none, i1) else
-      match getUtf8 i1 with
-      | none => .error .invalid
-      | some (cp, _) =>
-        if !isNameStart cp then .error .invalid else
-        match parseQName i1 with
-        | .error e => .error e
-        | .ok (p, n, r) =>
-          if !isNsDecl p n then .ok (some (p, n), r) else
-          match nextAttrContent r with
-          | .error e => .error e
-          | .ok (_, _, r1) => nextAttribute f r1
-
-/-- the shared tail of `lyxml_ctx_new` and of the `LYXML_ELEM_CLOSE` case of `lyxml_ctx_next` -/
-def afterTag (cx : XCtx) (inp : Bytes) : Except YErr XCtx :=
-  match nextElement cx.elems.length inp with
-  | .error e => .error e
-  | .ok none => .ok { cx with inp := [], status := .fin, pfx := none, name := [] }
-  | .ok (some (closing, p, n, r)) =>
-    if closing then closeElement cx p n false r else openElement cx p n r
-
-/-- `lyxml_ctx_new` (a stray closing tag is an error) -/
-def ctxNew (inp : Bytes) : Except YErr XCtx :=
-  let cx : XCtx := { inp := inp, status := .fin, elems := [], ns := [], pfx := none, name := [], value := [], wsOnly := false }
-  match nextElement 0 inp with
-  | .error e => .error e
-  | .ok none => .ok { cx with inp := [] }
-  | .ok (some (closing, p, n, r)) => if closing then .error .invalid else openElement cx p n r
-
-/-- `lyxml_ctx_next` -/
-def ctxNext (cx : XCtx) : Except YErr XCtx :=
-  match cx.status with
-  | .elemContent =>
-    if cx.inp.head? == some 47 then
-      match cx.elems with
-      | [] => .error .invalid
-      | e :: _ => closeElement cx e.1 e.2 true cx.inp
-    else afterTag cx cx.inp
-  | .elemClose => afterTag cx cx.inp
-  | .element | .attrContent =>
-    match nextAttribute (cx.inp.length + 1) cx.inp with
-    | .error e => .error e
-    | .ok (none, i) =>
-      if i.head? == some 62 then
-        let i1 := i.drop 1
-        if i1.isEmpty then .error .invalid else
-        match XmlText.parse 60 i1 with
-        | .error _ => .error .invalid
-        | .ok (v, ws, rest) => .ok { cx with inp := rest, status := .elemContent, value := v, wsOnly := ws }
-      else
-        .ok { cx with inp := i, status := .elemContent, value := [], wsOnly := true }
-    | .ok (some (p, n), i) => .ok { cx with inp := i, status := .attribute, pfx := p, name := n }
-  | .attribute =>
-    match nextAttrContent cx.inp with
-    | .error e => .error e
-    | .ok (v, ws, rest) => .ok { cx with inp := rest, status := .attrContent, value := v, wsOnly := ws }
-  | .fin => .ok cx
-
+export LyModel.XmlLex (YErr XStatus XNs XCtx inRanges isWs isNameStart isNameChar ignWs moveInput identRest parseIdent parseQName nextAttrContent sXmlns isNsDecl nsAdd nsRm nsGet skipSection skipToTag nextElement openAttrs openElement closeElement nextAttribute afterTag ctxNew ctxNext)
 end LyModel.Yin
